@@ -157,13 +157,36 @@ func (g gsm7Encoding) String() string {
 
 type gsm7Decoder struct {
 	packed bool
+	out    pendingOutput
+}
+
+// pendingOutput is a transformed message that did not fit into the destination it was offered: it is handed out in
+// pieces over the following calls. Answering ErrShortDst without having written anything makes callers with a fixed
+// buffer (transform.Writer.Close) ask again for ever.
+type pendingOutput struct {
+	data []byte
+	held bool
+}
+
+// drain copies what fits into dst; the source counts as consumed once everything has been handed out.
+func (p *pendingOutput) drain(dst, src []byte) (nDst, nSrc int, err error) {
+	nDst = copy(dst, p.data)
+	p.data = p.data[nDst:]
+	if len(p.data) > 0 {
+		return nDst, 0, transform.ErrShortDst
+	}
+	p.data, p.held = nil, false
+	return nDst, len(src), nil
 }
 
 func (g *gsm7Decoder) Reset() {
-	/* not needed */
+	g.out = pendingOutput{}
 }
 
 func (g *gsm7Decoder) Transform(dst, src []byte, atEOF bool) (nDst, nSrc int, err error) {
+	if g.out.held {
+		return g.out.drain(dst, src)
+	}
 	if len(src) == 0 {
 		return 0, 0, nil
 	}
@@ -268,28 +291,23 @@ func (g *gsm7Decoder) Transform(dst, src []byte, atEOF bool) (nDst, nSrc int, er
 		}
 		nSeptet++
 	}
-	text := builder.Bytes()
-	nDst = len(text)
-
-	if len(dst) < nDst {
-		return 0, 0, transform.ErrShortDst
-	}
-
-	for x, b := range text {
-		dst[x] = b
-	}
-	return nDst, len(src), err
+	g.out = pendingOutput{data: builder.Bytes(), held: true}
+	return g.out.drain(dst, src)
 }
 
 type gsm7Encoder struct {
 	packed bool
+	out    pendingOutput
 }
 
 func (g *gsm7Encoder) Reset() {
-	/* no needed */
+	g.out = pendingOutput{}
 }
 
 func (g *gsm7Encoder) Transform(dst, src []byte, atEOF bool) (nDst, nSrc int, err error) {
+	if g.out.held {
+		return g.out.drain(dst, src)
+	}
 	if len(src) == 0 {
 		return 0, 0, nil
 	}
@@ -318,15 +336,16 @@ func (g *gsm7Encoder) Transform(dst, src []byte, atEOF bool) (nDst, nSrc int, er
 	if g.packed {
 		nDst = int(math.Ceil(float64(len(septets)) * 7 / 8))
 	}
-	if len(dst) < nDst {
-		return 0, 0, transform.ErrShortDst
-	}
+	// the message is transformed into a buffer of its own and handed out from there (see pendingOutput)
+	full := dst
+	dst = make([]byte, nDst)
 
 	if !g.packed {
 		for x, v := range septets {
 			dst[x] = v
 		}
-		return nDst, nSrc, nil
+		g.out = pendingOutput{data: dst, held: true}
+		return g.out.drain(full, src)
 	}
 
 	nDst = 0
@@ -411,7 +430,8 @@ func (g *gsm7Encoder) Transform(dst, src []byte, atEOF bool) (nDst, nSrc int, er
 		}
 	}
 
-	return nDst, nSrc, err
+	g.out = pendingOutput{data: dst[:nDst], held: true}
+	return g.out.drain(full, src)
 }
 
 func Encode(src string) (dst []byte, err error) {
